@@ -11,6 +11,13 @@ What is mirrored
   `wait_for(queue.get(), interval)`; a timeout increments `repeat`, copies it to the output and
   re-sends the queued data with that `repeat` value; repeating goes on while
   `count is None or repeat < count` (`fire`, `advance`);
+* a destination that REFUSES a delivery (`Resp`; the answers are part of the state as the script
+  `State.resp` of the environment): at the synchronous forward the exception leaves `_event` before
+  `self._queue.put_nowait(data)` – nothing is queued, the event is never repeated, an event being
+  repeated goes on; `EdzedUnknownEvent` is re-raised to the sender without abort, anything else
+  aborts the simulation in `SBlock.event`. At a repetition the exception is raised inside the
+  monitored main task, which aborts the simulation (`AddonAsync._task_monitor`);
+* `ExtEvent.send` refuses with EdzedInvalidState once the simulation is not running (`deliver`);
 * `AddonMainTask.stop_async`: the main task is cancelled, events are still handled by `_event`
   during the clean-up but nothing is repeated any more (`stop`).
 
@@ -56,13 +63,33 @@ structure Pending where
   deadline : Nat
   deriving Repr, Inhabited, DecidableEq
 
+/-- how the destination block answers a delivery:
+    `ok` – handled; `unknown` – it raises `EdzedUnknownEvent` (an event type it does not know:
+    `SBlock.event` re-raises it WITHOUT aborting the simulation); `fatal` – any other exception
+    (a parameter error, an error inside the destination's handler: the exception passes through
+    `Repeat`'s own `SBlock.event`, whose traceback then has more than one level, and the
+    simulation is aborted) -/
+inductive Resp where
+  | ok | unknown | fatal
+  deriving Repr, Inhabited, DecidableEq
+
 structure State where
   /-- `Repeat.output` -/
   out : Nat := 0
   /-- `some` iff the main task is repeating an event -/
   cur : Option Pending := none
+  /-- the main task is gone and the circuit is not ready: after `stop`, or after an abort -/
   stopped : Bool := false
+  /-- environment: the answers the destination will give to the coming deliveries, in order;
+      when none is scripted it accepts -/
+  resp : List Resp := []
   deriving Repr, Inhabited, DecidableEq
+
+/-- the destination's answer to the next delivery -/
+def State.answer (s : State) : Resp :=
+  match s.resp with
+  | [] => .ok
+  | r :: _ => r
 
 /-- an event delivered to the destination block -/
 structure Sent where
@@ -71,6 +98,8 @@ structure Sent where
   /-- the `repeat` value the block passed to `send()` -/
   rep : Nat
   data : Data
+  /-- what the destination answered -/
+  resp : Resp
   deriving Repr, Inhabited, DecidableEq
 
 inductive Placement where
@@ -96,14 +125,22 @@ def withOrig (d : Data) : Data := d.set "orig_source" ((d.get? "source").getD Va
 def outData (c : Cfg) (d : Data) (rep : Nat) : Data :=
   (d.set "repeat" (Val.int rep)).set "source" (Val.str c.name)
 
-/-- one `asyncio.TimeoutError` in the main task -/
+/-- one `asyncio.TimeoutError` in the main task: `set_output(repeat)`, then the re-send.
+    When the destination refuses – for whatever reason – the exception is raised INSIDE the main
+    task; `AddonAsync._task_monitor` reports it with `circuit.abort()`: the simulation ends. -/
 def fire (c : Cfg) (s : State) (p : Pending) : State × Sent :=
   let rep := p.rep + 1
-  ({ s with
-      out := rep
-      cur := if repeating c rep then some { p with rep := rep, deadline := p.deadline + c.interval }
-             else none },
-   ⟨p.deadline, c.etype, rep, outData c p.data rep⟩)
+  let x : Sent := ⟨p.deadline, c.etype, rep, outData c p.data rep, s.answer⟩
+  match s.answer with
+  | .ok =>
+    ({ s with
+        out := rep
+        -- (`stopped` with a pending timeout: only right after an abort, see `arrive`; the clean-up
+        --  cancels the task before it can wait again)
+        cur := if !s.stopped && repeating c rep
+               then some { p with rep := rep, deadline := p.deadline + c.interval } else none
+        resp := s.resp.tail }, x)
+  | _ => ({ out := rep, cur := none, stopped := true, resp := s.resp.tail }, x)
 
 /-- let the timeouts due at or before `t` happen, oldest first -/
 def advanceFuel (c : Cfg) : Nat → State → Nat → State × List Sent
@@ -122,15 +159,36 @@ def advanceFuel (c : Cfg) : Nat → State → Nat → State × List Sent
     (`t + 1` steps always suffice because deadlines are positive and `interval ≥ 1`.) -/
 def advance (c : Cfg) (s : State) (t : Nat) : State × List Sent := advanceFuel c (t + 1) s t
 
-/-- `Repeat._event` followed by the main task picking the item up in the same instant -/
+/-- `Repeat._event` followed by the main task picking the item up in the same instant.
+    The statement order of `_event` matters: `orig_source`, `set_output(0)`, the synchronous
+    forward, and only then `self._queue.put_nowait(data)`. When the forward raises, the
+    queueing is skipped – the event will never be repeated and whatever was being repeated
+    goes on; `EdzedUnknownEvent` just propagates to the sender, any other exception makes
+    `SBlock.event` of the Repeat block abort the simulation. -/
 def arrive (c : Cfg) (s : State) (t : Nat) (etype : String) (data : Data) : State × List Sent :=
   if etype != c.etype then (s, [])
   else
     let d := withOrig data
-    ({ s with
-        out := 0
-        cur := if !s.stopped && repeating c 0 then some ⟨d, 0, t + c.interval⟩ else none },
-     [⟨t, c.etype, 0, outData c d 0⟩])
+    let x : Sent := ⟨t, c.etype, 0, outData c d 0, s.answer⟩
+    match s.answer with
+    | .ok =>
+      ({ s with
+          out := 0
+          cur := if !s.stopped && repeating c 0 then some ⟨d, 0, t + c.interval⟩ else none
+          resp := s.resp.tail }, [x])
+    | .unknown => ({ s with out := 0, resp := s.resp.tail }, [x])
+    | .fatal =>
+      -- `abort()` was called; the clean-up needs further loop iterations to cancel the main task.
+      -- A timeout of this very loop iteration (`B`/`T` arrival at `t = deadline`; nothing was
+      -- queued that would supersede it) is already on its way: that one repetition still happens
+      -- when the task resumes (`fire` of a stopped block does not re-arm).
+      ({ s with
+          out := 0
+          cur := match s.cur with
+            | some p => if p.deadline ≤ t then some p else none
+            | none => none
+          stopped := true
+          resp := s.resp.tail }, [x])
 
 /-- THE SAME-ITERATION RULE: up to which instant timeouts are processed before an arrival at `t` -/
 def Placement.horizon (pl : Placement) (t : Nat) : Nat :=
@@ -144,6 +202,32 @@ def event (c : Cfg) (s : State) (t : Nat) (pl : Placement) (etype : String) (dat
   let r := advance c s (pl.horizon t)
   let r' := arrive c r.1 t etype data
   (r'.1, r.2 ++ r'.2)
+
+/-- what the sender of an event gets back -/
+inductive Ret where
+  /-- handled (or ignored: another event type) -/
+  | ok
+  /-- `EdzedUnknownEvent` from the destination, the simulation goes on -/
+  | unknown
+  /-- another exception, the simulation is aborted -/
+  | fatal
+  /-- `ExtEvent.send`: EdzedInvalidState, the simulation is not running; the block is not reached -/
+  | notReady
+  deriving Repr, Inhabited, DecidableEq
+
+/-- an event with its result; `ext`: sent with `ExtEvent.send`, which checks `is_ready()` first -/
+def deliver (c : Cfg) (s : State) (t : Nat) (pl : Placement) (etype : String) (data : Data)
+    (ext : Bool) : State × List Sent × Ret :=
+  let r := advance c s (pl.horizon t)
+  if ext && r.1.stopped then (r.1, r.2, .notReady)
+  else
+    let r' := arrive c r.1 t etype data
+    (r'.1, r.2 ++ r'.2,
+      if etype != c.etype then .ok
+      else match r.1.answer with
+        | .ok => .ok
+        | .unknown => .unknown
+        | .fatal => .fatal)
 
 /-- `stop_async`: the main task is cancelled -/
 def stop (s : State) : State := { s with cur := none, stopped := true }
